@@ -189,6 +189,11 @@ theorem C05_parse_spec_partial_flex : ∀ first ∈ alphaF, (scope alphaF 3 firs
 example : ((scope alphaS 3 one).filter (fun l => (parseInit scopeS l).toOption.isSome && (InitSpec.init scopeS l).toOption.isSome)).length = 73 := by
   decide +kernel
 
+/-- non-vacuity for scope 2: `{ 1, 1, .f = { 1, 1 } }`-like lists are accepted by both sides; here one with the flexible member -/
+example : agreeOn scopeF [.lbrace, one, .comma, .dot "f", .eq, .lbrace, one, .comma, one, .rbrace, .rbrace] = true ∧
+    ((parseInit scopeF [.lbrace, one, .comma, .dot "f", .eq, .lbrace, one, .comma, one, .rbrace, .rbrace]).toOption.map
+      (fun p => (resolveTy scopeF p.1).size)) = some 20 := by decide +kernel
+
 /-- **C05 (count), full statement.**  For an array of unknown bound the length `count_array_init_elements` gives the object is the
     specification's: the largest indexed element with an explicit initializer, plus one (6.7.9p22). -/
 def C05_count_Statement : Prop :=
@@ -208,5 +213,10 @@ theorem C05_count_partial :
     (∀ first ∈ alphaI, (scope alphaI 4 first).all (fun l => agreeOn scopeI l && sameBound scopeI l) = true) ∧
     (∀ first ∈ alphaQ, (scope alphaQ 3 first).all (fun l => agreeOn scopeQ l && sameBound scopeQ l) = true) := by
   decide +kernel
+
+/-- non-vacuity: `int x[] = { 1, [3] = 1, 1 }` has 5 elements on both sides; `int x[] = { [1 ... 2] = 1 }` has 3 -/
+example : ((parseInit scopeI [.lbrace, one, .comma, .idx 3, .eq, one, .comma, one, .rbrace]).toOption.map (·.1.children.length)) = some 5 ∧
+    ((InitSpec.init scopeI [.lbrace, one, .comma, .idx 3, .eq, one, .comma, one, .rbrace]).toOption.map (·.1.children.length)) = some 5 ∧
+    ((parseInit scopeI [.lbrace, .range 1 2, .eq, one, .rbrace]).toOption.map (·.1.children.length)) = some 3 := by decide +kernel
 
 end ChibiVerif.Props.C05
